@@ -130,6 +130,35 @@ def laws(rng):
             if ai != [wanti, wanti] or bi != [wanti, wanti]:
                 out.append(('filter_select_commute', {'pipeline': p, 'sel': sel, 'predicate': 'x %% %d' % pm, 'select_then_filter_lazy_eager': ai,
                                                       'filter_then_select_lazy_eager': bi, 'want': wanti}))
+        # filter fusion and filter over concatenation, with a first predicate that may raise (Lean: C16_filter_filter,
+        # C16_filter_concat): the second predicate runs exactly on the examples the first accepted, in order
+        pm2 = rng.choice([2, 3, 5])
+        bad_r = rng.choice([None, None, 0, 1, 2, 3, 4, 5, 6])
+        g_calls = []
+
+        def p1(x):
+            if bad_r is not None and x % 7 == bad_r:
+                raise ValueError('p1')
+            return x % pm == 0
+
+        def p2(x):
+            g_calls.append(x)
+            return x % pm2 != 1
+        law('filter_filter', lambda: ds.filter(p1).filter(p2), lambda: ds.filter(lambda x: p1(x) and p2(x)), F_ALL,
+            {'pm': pm, 'pm2': pm2, 'raise_at_mod7': bad_r})
+        del g_calls[:]
+        got = run_stream(lambda: ds.filter(p1).filter(p2))
+        want_calls = []
+        for v in vals:
+            if bad_r is not None and v % 7 == bad_r:
+                break
+            if v % pm == 0:
+                want_calls.append(v)
+        if g_calls != want_calls:
+            out.append(('filter_filter_short_circuit', {'pipeline': p, 'second_predicate_called_on': list(g_calls), 'want': want_calls,
+                                                        'observed': got, 'params': {'pm': pm, 'pm2': pm2, 'raise_at_mod7': bad_r}}))
+        law('filter_concat', lambda: ds.concatenate(ds_b).filter(p1), lambda: ds.filter(p1).concatenate(ds_b.filter(p1)), ('iter',),
+            {'pm': pm, 'raise_at_mod7': bad_r})
         r = rng.randint(1, 3)
         law('tile_eq_concat', lambda: ds.tile(r), lambda: lazy_dataset.concatenate(*([ds] * r)), ('iter', 'len', 'gets'), {'reps': r})
         # tile(r, shuffle=True) is the concatenation of r independently shuffled views (same draws from the global generator)
@@ -185,9 +214,9 @@ def run(rep):
             seen.add(name)
             rep.violation({'property': 'C16', 'kind': 'oracle-failure', 'clause': name, 'detail': det})
     rep.coverage.update({
-        'evaluations': n * 13, 'programs': n, 'disagreements_checked': n * 13, 'disagreements_found': len(fails),
+        'evaluations': n * 16, 'programs': n, 'disagreements_checked': n * 16, 'disagreements_found': len(fails),
         'distinct_nontrivial': len(distinct),
-        'rule': '13 laws instantiated on random error-free indexable base pipelines (sources, slices, sorts, one-time shuffles, caches, copies) with distinct examples and random parameters; '
+        'rule': '16 laws instantiated on random error-free indexable base pipelines (sources, slices, sorts, one-time shuffles, caches, copies) with distinct examples and random parameters; '
                 'both sides are built on the implementation and compared on iteration, len, keys, items(), ds[key] for every key and ds[i] for all i in [-n-1, n+1); distinct non-trivial = distinct base pipeline',
         'samples': [{'law': 'map_slice', 'lhs': 'ds.map(f)[s1]', 'rhs': 'ds[s1].map(f)'}, {'law': 'concat_split_id', 'lhs': 'concatenate(*ds.split(k))', 'rhs': 'ds'}],
         'distribution': {'base_stage_kinds': dist}, 'exhaustive': False})
